@@ -141,6 +141,13 @@ def gen_C01(tier, rnd):
         ev += [P("SUBSCRIBE", qos=1, tit=2, sname=sn, mid=50), M("SUBACK", mid=50, codes=[1]),
                P("UNSUBSCRIBE", tit=2, sname=sn, mid=51), M("UNSUBACK", mid=51)]
         out.append(sc("shortname-%s" % sn.replace(":", "").replace("/", "_"), ev, tail=5))
+    # predefined IDs are resolved for the client ID of the session: publishes before CONNECT (QoS -1, client ID
+    # still unknown), then the same and the client-specific IDs after CONNECT, and after a re-CONNECT
+    for pre in ([2], [6], [2, 6], []):
+        ev = [P("PUBLISH", qos=3, tit=1, tid=i, mid=0, data="s:early%d" % i) for i in pre]
+        ev += CONNECT + [P("PUBLISH", qos=q, tit=1, tid=i, mid=60 + i, data="s:late%d" % i) for i in (5, 6, 2) for q in (0, 1, 3)]
+        ev += CONNECT + [P("PUBLISH", qos=0, tit=1, tid=i, mid=0, data="s:again%d" % i) for i in (6, 5)]
+        out.append(sc("predef-client-%s" % "-".join(map(str, pre)), ev, tail=15))
     # full-range IDs
     for k in range(6 if tier == "quick" else 40):
         mid = rnd.choice([1, 255, 256, 0xFFFE, 0xFFFF, rnd.randrange(1, 65536)])
